@@ -64,7 +64,17 @@ fn ray_case<S: Lift>(t: &mut Tape, cx: &mut Cx) -> CaseResult {
     let a = t.int(1, n - 2);
     let b = t.int(1, n - 1 - a);
     let (fa, fb) = (S::q(a, n), S::q(b, n));
-    let h = S::q(1, 64);
+    // distance of the near-miss / just-inside classes from the edge: 1/64, and (exact domain only) down to
+    // 2^-60, i.e. far below T::epsilon() = 2^-52 -- the closed triangle has no tolerance band
+    let h = if S::EXACT && (class == 8 || class == 9) {
+        let e = t.pick(&[6i64, 6, 20, 45, 60]);
+        if e > 6 {
+            cx.label("edge distance 2^-20 .. 2^-60 (below epsilon)");
+        }
+        S::q(1, 1i64 << e)
+    } else {
+        S::q(1, 64)
+    };
     let half = S::q(1, 2);
     let one = S::one();
     let zero = S::zero();
@@ -180,8 +190,8 @@ fn ray_case<S: Lift>(t: &mut Tape, cx: &mut Cx) -> CaseResult {
         4 => "constructed: on edge u + v = 1",
         5 => "constructed: on a vertex",
         6 | 7 => "constructed: miss",
-        8 => "constructed: near miss (1/64 outside)",
-        9 => "constructed: just inside (1/64)",
+        8 => "constructed: near miss (1/64 .. 2^-60 outside)",
+        9 => "constructed: just inside (1/64 .. 2^-60)",
         10 => "constructed: parallel, in the plane",
         11 => "constructed: parallel, off the plane",
         12 => "constructed: degenerate triangle",
